@@ -10,6 +10,8 @@ package main
 import (
 	"crypto/sha256"
 	"encoding/hex"
+	"errors"
+	"flag"
 	"fmt"
 	"math/big"
 	"os"
@@ -22,7 +24,7 @@ import (
 )
 
 type input struct {
-	Kind   string `json:"kind"`             // round1 | round2 | dec1 | dec2 | hash
+	Kind   string `json:"kind"`             // round1 | round2 | dec1 | dec2 | hash | hashrun
 	Scalar string `json:"scalar,omitempty"` // decimal k for k*G
 	Bytes  string `json:"bytes,omitempty"`  // hex input for dec1 / dec2 / hash
 }
@@ -54,7 +56,7 @@ func point2Term(m []byte) string {
 }
 
 type result struct {
-	kind  string // ok | err | panic | hang
+	kind  string // ok | err | panic | hang | nil (hash only: a nil *bn256.G1 was returned)
 	bytes []byte
 }
 
@@ -98,6 +100,8 @@ func res1Term(r result) string {
 		return "Err1"
 	case "hang":
 		return "Hang1"
+	case "nil":
+		return "Nil1"
 	}
 	return "Panic1"
 }
@@ -122,6 +126,23 @@ func cresTerm(r result) string {
 }
 
 var hung = false
+
+var errNilPoint = errors.New("nil point")
+
+// hashCall runs the real G1HashToPoint; a nil result is the observable "nil", a panic "panic".
+func hashCall(b []byte) result {
+	r := guarded(func() ([]byte, error) {
+		p := altbn128.G1HashToPoint(append([]byte{}, b...))
+		if p == nil {
+			return nil, errNilPoint
+		}
+		return p.Marshal(), nil
+	})
+	if r.kind == "err" {
+		r.kind = "nil"
+	}
+	return r
+}
 
 func run(in input, em *lib.Emitter, id string) {
 	var coq string
@@ -203,17 +224,28 @@ func run(in input, em *lib.Emitter, id string) {
 		out["decompress"] = d.kind
 		nontrivial = !allZero(b)
 		em.Tally("dec2-" + d.kind)
-	case "hash":
+	case "hash", "hashrun":
+		// hashrun: a message ground for a long try-and-increment run (search.go); the number of
+		// increments is computed here with Jacobi symbols, independently of the implementation,
+		// and the model must reproduce both the point and that count
 		b, _ := hex.DecodeString(in.Bytes)
 		h := sha256.Sum256(b)
-		call := func() result {
-			return guarded(func() ([]byte, error) { return altbn128.G1HashToPoint(b).Marshal(), nil })
+		incs := runLengthOf(b)
+		p1, p2 := hashCall(b), hashCall(b)
+		if in.Kind == "hash" {
+			coq = fmt.Sprintf("(CHash %s %s %s)", zOf(h[:]), res1Term(p1), res1Term(p2))
+			nontrivial = len(b) > 0
+		} else {
+			coq = fmt.Sprintf("(CHashRun %s %s %s %s)", zOf(h[:]), lib.Z(int64(incs)), res1Term(p1), res1Term(p2))
+			out["message"] = string(b)
 		}
-		p1, p2 := call(), call()
-		coq = fmt.Sprintf("(CHash %s %s %s)", zOf(h[:]), res1Term(p1), res1Term(p2))
-		out["point"] = p1.kind
-		nontrivial = len(b) > 0
-		em.Tally("hash-" + p1.kind)
+		out["point"], out["repeat"], out["increments"] = p1.kind, p2.kind, incs
+		if p1.kind == "ok" && !allZero(p1.bytes) {
+			x0 := new(big.Int).Mod(new(big.Int).SetBytes(h[:]), fieldP)
+			out["x_offset"] = new(big.Int).Sub(new(big.Int).SetBytes(p1.bytes[:32]), x0).String()
+		}
+		em.Tally(in.Kind + "-" + p1.kind)
+		em.Tally(fmt.Sprintf("hash-increments-%02d", incs))
 	default:
 		fmt.Fprintln(os.Stderr, "unknown kind", in.Kind)
 		os.Exit(2)
@@ -245,7 +277,15 @@ func randScalar(r *lib.Rng) *big.Int {
 }
 
 func main() {
+	grindN := flag.Uint64("grind", 0, "search mode: grind this many messages <prefix><counter> for long try-and-increment runs and print them")
+	grindFrom := flag.Uint64("grind-from", 0, "search mode: first counter")
+	grindMin := flag.Int("grind-min", 16, "search mode: smallest run length reported")
+	grindPrefix := flag.String("grind-prefix", "verif-c04-", "search mode: message prefix")
 	o := lib.ParseOpts()
+	if *grindN > 0 {
+		grindMain(*grindPrefix, *grindFrom, *grindN, *grindMin)
+		return
+	}
 	em := lib.NewEmitter()
 	if o.Replay != "" {
 		var in input
@@ -297,6 +337,24 @@ func main() {
 	run(input{Kind: "round2", Scalar: "0"}, em, "corpus-round2-identity")
 	run(input{Kind: "hash", Bytes: ""}, em, "corpus-hash-empty")
 	run(input{Kind: "hash", Bytes: hexOf([]byte("hello"))}, em, "corpus-hash-hello")
+	// messages ground for long try-and-increment runs (longruns.json, produced once by
+	// `c04 -grind`): a random message needs k or more increments with probability 2^-k, so
+	// without these the loop is never exercised beyond a dozen iterations
+	for _, lr := range loadLongRuns() {
+		if got := runLengthOf([]byte(lr.Msg)); got != lr.Run {
+			fmt.Fprintf(os.Stderr, "longruns.json: %q has run length %d, file says %d\n", lr.Msg, got, lr.Run)
+			os.Exit(2)
+		}
+		run(input{Kind: "hashrun", Bytes: hexOf([]byte(lr.Msg))}, em, fmt.Sprintf("corpus-hashrun-%02d-%s", lr.Run, lr.Msg))
+	}
+	// thorough / search tier: a fresh seeded search on every run
+	if o.Tier != "quick" {
+		prefix := fmt.Sprintf("verif-c04-s%d-", o.Seed)
+		hits, _ := grind(prefix, 0, 1<<23, 15)
+		for _, lr := range hits {
+			run(input{Kind: "hashrun", Bytes: hexOf([]byte(lr.Msg))}, em, fmt.Sprintf("ground-hashrun-%02d-%s", lr.Run, lr.Msg))
+		}
+	}
 
 	// --- small scope: k*G for k = 4..N, both groups
 	nSmall := o.Count(12, 120)
@@ -383,7 +441,9 @@ func main() {
 		run(input{Kind: "hash", Bytes: hexOf(r.Bytes(r.Intn(80)))}, em, fmt.Sprintf("hash-%d", i))
 	}
 	em.Close("a case is one Compress+Decompress round trip of a group element k*G (G1 or G2), one "+
-		"decompression of an arbitrary 32- / 64-byte string, or one G1HashToPoint call (run twice); distinct by "+
-		"(kind, scalar or bytes); non-trivial: round trips of non-identity elements, decompression inputs other "+
-		"than the all-zero string, hashes of non-empty messages", nil)
+		"decompression of an arbitrary 32- / 64-byte string, or one G1HashToPoint call (run twice; kind hashrun: on a "+
+		"message ground for a long try-and-increment run, with the independently computed number of increments); "+
+		"distinct by (kind, scalar or bytes); non-trivial: round trips of non-identity elements, decompression inputs "+
+		"other than the all-zero string, hashes of non-empty messages; dist hash-increments-NN = number of hash cases "+
+		"whose try-and-increment loop executed NN increments", nil)
 }
